@@ -1061,6 +1061,13 @@ pub fn run(segs: &[Vec<&str>]) -> String {
             let ops: Vec<Option<LazyOp>> = segs[1..].iter().map(|s| parse_lazy_op(s)).collect();
             dispatch_lazy(f, b, p, &parse_list(tbl)?, parse_opt_hex(norm)?, &ops).or(Some("unsupported".into()))
         }
+        ["quant.sfop", f, a, b, n] if segs.len() == 1 => {
+            let (a, b, n) = (parse_hex(a)?, parse_hex(b)?, parse_hex(n)?);
+            if n > u64::MAX as u128 {
+                return None;
+            }
+            sfop(f, a, b, n as u64)
+        }
         ["quant.new", sym, b, p, mn, mx] if segs.len() == 1 => {
             let (b, p) = (parse_hex(b)? as u32, parse_hex(p)? as u32);
             if p == 0 || p > b {
@@ -1082,6 +1089,78 @@ pub fn run(segs: &[Vec<&str>]) -> String {
         _ => None,
     })();
     r.unwrap_or_else(|| "bad-op".into())
+}
+
+/// one sample of every float operation the `…_fast` constructors use, on the hardware floats:
+/// `add mul div le u8 u16 u32 u64 ofnat` (bit patterns, `nan` for any NaN).  The Lean side answers
+/// with the software IEEE model (`CV.Model.SoftFloat`).
+fn sfop(f: &str, a: u128, b: u128, n: u64) -> Option<String> {
+    use std::hint::black_box as bb;
+    match f {
+        "f32" => {
+            if a > u32::MAX as u128 || b > u32::MAX as u128 {
+                return None;
+            }
+            let (x, y) = (bb(f32::from_bits(a as u32)), bb(f32::from_bits(b as u32)));
+            let fl = |r: f32| if r.is_nan() { "nan".to_string() } else { format!("{:x}", r.to_bits()) };
+            Some(format!(
+                "{} {} {} {} {:x} {:x} {:x} {:x} {}",
+                fl(x + y), fl(x * y), fl(x / y), (x <= y) as u8, x as u8, x as u16, x as u32, x as u64, fl(bb(n) as f32)
+            ))
+        }
+        "f64" => {
+            if a > u64::MAX as u128 || b > u64::MAX as u128 {
+                return None;
+            }
+            let (x, y) = (bb(f64::from_bits(a as u64)), bb(f64::from_bits(b as u64)));
+            let fl = |r: f64| if r.is_nan() { "nan".to_string() } else { format!("{:x}", r.to_bits()) };
+            Some(format!(
+                "{} {} {} {} {:x} {:x} {:x} {:x} {}",
+                fl(x + y), fl(x * y), fl(x / y), (x <= y) as u8, x as u8, x as u16, x as u32, x as u64, fl(bb(n) as f64)
+            ))
+        }
+        _ => None,
+    }
+}
+
+/// a bit pattern of a float of `w` bits: uniform, positive, tiny / subnormal, near one, zero, near
+/// the largest finite value, infinity, around the smallest normal, NaN
+fn gen_float_bits(rng: &mut Rng, is32: bool) -> u128 {
+    let r = rng.next() as u128;
+    let (w, mant, one) = if is32 { (32u32, 23u32, 0x3f80_0000u128) } else { (64, 52, 0x3ff0_0000_0000_0000u128) };
+    let full = if is32 { r & 0xffff_ffff } else { r };
+    let pos = full & ((1u128 << (w - 1)) - 1);
+    let maxfin = ((((1u128 << (w - 1 - mant)) - 2) << mant) | ((1u128 << mant) - 1)) as u128;
+    match rng.next() % 16 {
+        0..=4 => full,
+        5 | 6 => pos,
+        7 | 8 => pos & ((1u128 << (mant + 2)) - 1),
+        9 | 10 => one + (full & ((1u128 << (mant + 2)) - 1)),
+        11 => (full & 1) << (w - 1),
+        12 => maxfin - (full & 3),
+        13 => ((1u128 << (w - 1 - mant)) - 1) << mant | ((full & 1) << (w - 1)),
+        14 => (1u128 << mant) - 2 + (full & 3),
+        _ => ((((1u128 << (w - 1 - mant)) - 1) << mant) | 1 | (full & ((1u128 << mant) - 1))) as u128,
+    }
+}
+
+fn gen_sfop_line(rng: &mut Rng) -> String {
+    let is32 = rng.next() % 2 == 0;
+    let a = gen_float_bits(rng, is32);
+    // related operands (same exponent, neighbours, negation) exercise cancellation and ties
+    let b = match rng.next() % 6 {
+        0 => a ^ (1u128 << if is32 { 31 } else { 63 }),
+        1 => a.wrapping_add(1) & if is32 { 0xffff_ffff } else { u64::MAX as u128 },
+        2 => (a & !((1u128 << if is32 { 23 } else { 52 }) - 1)) | (gen_float_bits(rng, is32) & ((1u128 << if is32 { 23 } else { 52 }) - 1)),
+        _ => gen_float_bits(rng, is32),
+    };
+    let n = match rng.next() % 4 {
+        0 => rng.next(),
+        1 => rng.next() >> (rng.next() % 64),
+        2 => (1u64 << (rng.next() % 64)).wrapping_add(rng.next() % 5).wrapping_sub(2),
+        _ => u64::MAX - (rng.next() % 4096),
+    };
+    format!("quant.sfop {} {:x} {:x} {:x}", if is32 { "f32" } else { "f64" }, a, b, n)
 }
 
 // ---------------------------------------------------------------------------------------
@@ -1755,6 +1834,10 @@ pub fn gen(rng: &mut Rng, tier: &str, out: &mut Vec<String>) {
                 }
             }
         }
+    }
+    // single float operations: hardware floats vs the software IEEE model of the Lean side
+    for _ in 0..400 * k {
+        out.push(gen_sfop_line(rng));
     }
     // tiny / huge normalisation (eager `fast_quantized_cdf` vs the lazy model's own arithmetic)
     for _ in 0..2 * k {
